@@ -74,9 +74,16 @@ def replay_real(sc, R, tier, seed, beh, lanes, outname, extra_args):
     return meta, ex
 
 
-def validate(sc, R, metas):
+def validate(sc, R, metas, selftest_from):
     files = [f for meta, _ in metas for f in meta["trace_files"]]
-    val = V.validate_traces(sc, "Scheduler", "SchedulerTraceMC.tla", "SchedulerTrace.cfg", files, timeout=2400)
+    bad_fp, bad_line = corrupted_copy(sc, selftest_from)
+    val = V.validate_traces(sc, "Scheduler", "SchedulerTraceMC.tla", "SchedulerTrace.cfg", files + [bad_fp], timeout=2400)
+    mine = [r for r in val["rejections"] if r[0] == bad_fp]
+    if [r[1] for r in mine] != [bad_line]:
+        raise V.Broken("self-test: a trace with a corrupted occurrence (line %d) was not rejected there (%s)" % (bad_line, [r[1] for r in mine]))
+    V.log("self-test: corrupted occurrence at line %d rejected" % bad_line)
+    val["rejections"] = [r for r in val["rejections"] if r[0] != bad_fp]
+    val["accepted"] = not val["rejections"]
     R.states += val["states"]
     R.handle_validation(val)
     for _, ex in metas:
@@ -127,9 +134,9 @@ def simulate(sc, n, seed, procs):
     return out, got
 
 
-def selftest(sc, trace_file):
+def corrupted_copy(sc, trace_file):
     """The binding must bite: one recorded field of a real trace is corrupted (an execution claims the occurrence
-    after the one that was due) and the trace specification has to reject exactly that line."""
+    after the one that was due); the trace specification has to reject exactly that line.  Returns (file, line)."""
     lines = open(trace_file).read().splitlines()[:400]
     ends = [i for i, ln in enumerate(lines) if '"ev":"End"' in ln]
     starts = [i for i, ln in enumerate(lines) if '"ev":"ExecStart"' in ln and (not ends or i < ends[-1])]
@@ -143,34 +150,7 @@ def selftest(sc, trace_file):
     fp = os.path.join(sc.sub("selftest"), "corrupted.ndjson")
     with open(fp, "w") as f:
         f.write("\n".join(lines) + "\n")
-    val = V.validate_traces(sc, "Scheduler", "SchedulerTraceMC.tla", "SchedulerTrace.cfg", [fp], parallel=1)
-    rej = [ln for _, ln, _ in val["rejections"]]
-    if rej != [k + 1]:
-        raise V.Broken("self-test: a trace with a corrupted occurrence (line %d) was not rejected there (rejections: %s)" % (k + 1, rej))
-    V.log("self-test: corrupted occurrence at line %d rejected" % (k + 1))
-
-
-def selftest(sc, trace_file):
-    """The binding must bite: one recorded field of a real trace is corrupted (an execution claims the occurrence
-    after the one that was due) and the trace specification has to reject exactly that line."""
-    lines = open(trace_file).read().splitlines()[:400]
-    ends = [i for i, ln in enumerate(lines) if '"ev":"End"' in ln]
-    starts = [i for i, ln in enumerate(lines) if '"ev":"ExecStart"' in ln and (not ends or i < ends[-1])]
-    if not ends or len(starts) < 2:
-        raise V.Broken("self-test: the first trace file has no complete trace with two executions")
-    lines = lines[:ends[-1] + 1]
-    k = starts[1]
-    ev = json.loads(lines[k])
-    ev["occ"] += 1
-    lines[k] = json.dumps(ev, separators=(",", ":"))
-    fp = os.path.join(sc.sub("selftest"), "corrupted.ndjson")
-    with open(fp, "w") as f:
-        f.write("\n".join(lines) + "\n")
-    val = V.validate_traces(sc, "Scheduler", "SchedulerTraceMC.tla", "SchedulerTrace.cfg", [fp], parallel=1)
-    rej = [ln for _, ln, _ in val["rejections"]]
-    if rej != [k + 1]:
-        raise V.Broken("self-test: a trace with a corrupted occurrence (line %d) was not rejected there (rejections: %s)" % (k + 1, rej))
-    V.log("self-test: corrupted occurrence at line %d rejected" % (k + 1))
+    return fp, k + 1
 
 
 def run(sc, tier, seed):
@@ -181,7 +161,10 @@ def run(sc, tier, seed):
     R.add_model(V.model_check(sc, "Scheduler", "SchedulerMC.tla", cfg, workers=8 if tier == "quick" else 16, timeout=1700))
     R.add_model(V.model_check(sc, "Scheduler", "SchedulerMC.tla", "Scheduler_live.cfg", workers=4, timeout=1700))
     obs = {}
-    for name, inv in (("Scheduler_obs_rerun.cfg", "NeverRerunAcrossEpochs"), ("Scheduler_obs_ckpt.cfg", "CheckpointNeverGoesBack")):
+    readings = [("Scheduler_obs_rerun.cfg", "NeverRerunAcrossEpochs")]
+    if tier == "thorough":
+        readings.append(("Scheduler_obs_ckpt.cfg", "CheckpointNeverGoesBack"))
+    for name, inv in readings:
         res = V.model_check(sc, "Scheduler", "SchedulerMC.tla", name, workers=4, timeout=600, expect_violation=[inv])
         obs[inv] = "fails in the model (stronger than the per-epoch reading; observation only)" if res["violated"] else "holds within the bounds"
     # ---- binding 1: every behaviour with `moves` environment moves over the small alphabet ----
@@ -194,8 +177,7 @@ def run(sc, tier, seed):
     m2 = replay_real(sc, R, tier, seed, beh, lanes, "drv-c17-sim", [])
     meta = m2[0]
     # ---- TLC decides every recorded execution ----
-    validate(sc, R, [m1, m2])
-    selftest(sc, meta["trace_files"][0])
+    validate(sc, R, [m1, m2], meta["trace_files"][0])
     reruns = meta["extra"]["random_part"].get("observation_occurrence_reruns_across_epochs", 0)
     if reruns:
         V.log("OBSERVATION property=C17: %d occurrence(s) were executed again after a re-Schedule (allowed by the per-epoch reading)" % reruns)
